@@ -182,10 +182,11 @@ def main(argv=None):
         sigs = [s for s, _ in res["failures"]]
         path = os.path.join("replays", prop, fn)
         listed = [e for e in known if os.path.basename(e.get("replay", "")) == fn]
-        ent = listed[0] if listed else None
-        if ent and ent.get("status") == "known":
-            if ent["signature"] in sigs:
-                known_lines.append(f"KNOWN-FINDING: property={prop} {ent['what']} [{ent['signature']}] replay={path}")
+        known_here = [e for e in listed if e.get("status") == "known"]
+        if known_here:
+            for ent in known_here:
+                if ent["signature"] in sigs:
+                    known_lines.append(f"KNOWN-FINDING: property={prop} {ent['what']} [{ent['signature']}] replay={path}")
             other = [s for s in sigs if s not in known_sigs]
             if other:
                 violations.append((other[0], path))
